@@ -103,9 +103,16 @@ func checkReader(c *Ctx, p *Program, spec readerSpec, maxRuns int) {
 		}
 		return m[k]
 	}
+	early := map[string]string{}
 	for i := range out.runs {
 		r := &out.runs[i]
 		for _, f := range r.facts {
+			if f.earlySuccess && spec.rel == "mux" {
+				lk := f.fn + "@" + f.pos
+				if early[lk] == "" {
+					early[lk] = "[input class: " + describeAssume(r.assume, r.order) + "]"
+				}
+			}
 			// the chunk header: per cursor, the 32-bit read at the smallest offset is the FourCC and the
 			// read 4 bytes further is the size
 			minOff := map[string]Lin{}
@@ -198,6 +205,12 @@ func checkReader(c *Ctx, p *Program, spec readerSpec, maxRuns int) {
 		ks = append(ks, k)
 	}
 	sort.Strings(ks)
+	if spec.rel == "mux" {
+		for _, k := range ks {
+			c.Check(early[k] == "", "R3-walk-to-end", k, strings.SplitN(k, "@", 2)[1], "the demuxer's chunk walk only ends at the end of the data or with an error",
+				"the demuxer's chunk walk can return successfully from inside the loop, before the end of the data: chunks that follow (trailing EXIF/XMP metadata) are never seen although the header flags announce them "+early[k])
+		}
+	}
 	for _, k := range ks {
 		v := adv[k]
 		c.Check(v.bad == "", "R1-advance", k, strings.SplitN(k, "@", 2)[1], fmt.Sprintf("in all %d input classes the chunk walk advances by 8 + size + pad", v.n), v.bad)
